@@ -24,6 +24,7 @@ type stream struct {
 	Log      []WriteRec
 	cutAt    int // >=0: stream is cut after this many bytes (the rest is dropped, writer side closes)
 	failAt   int // >=0: the write that would pass this offset fails (bytes up to it are delivered)
+	timeoutAt int // >=0: once this many bytes have been read, every Read fails with a timeout error
 	readOff  int
 	sink     bool // never delivered to a reader, only logged
 	waitN    int  // WaitIncoming: number of logged writes waited for
@@ -39,8 +40,17 @@ func (s *stream) readable() bool {
 	if s.waitN > 0 {
 		return len(s.Log) >= s.waitN || s.wclosed || s.rclosed
 	}
-	return len(s.buf) > 0 || s.wclosed || s.rclosed
+	return len(s.buf) > 0 || s.wclosed || s.rclosed || s.timedOut()
 }
+
+func (s *stream) timedOut() bool { return s.timeoutAt >= 0 && s.readOff >= s.timeoutAt }
+
+// timeoutError is what a socket returns when its read deadline has passed.
+type timeoutError struct{}
+
+func (timeoutError) Error() string   { return "i/o timeout" }
+func (timeoutError) Timeout() bool   { return true }
+func (timeoutError) Temporary() bool { return true }
 
 // SegPolicy decides how many of the n available bytes (n>=1) the next Read
 // returns (at most want). It may call Choose.
@@ -67,8 +77,8 @@ func Pipe(nameA, nameB string) (*End, *End) {
 		a, b := net.Pipe()
 		return &End{name: nameA, real: a}, &End{name: nameB, real: b}
 	}
-	ab := &stream{id: ex.newObj(), cutAt: -1, failAt: -1, stallAt: -1}
-	ba := &stream{id: ex.newObj(), cutAt: -1, failAt: -1, stallAt: -1}
+	ab := &stream{id: ex.newObj(), cutAt: -1, failAt: -1, stallAt: -1, timeoutAt: -1}
+	ba := &stream{id: ex.newObj(), cutAt: -1, failAt: -1, stallAt: -1, timeoutAt: -1}
 	return &End{name: nameA, rd: ba, wr: ab}, &End{name: nameB, rd: ab, wr: ba}
 }
 
@@ -92,12 +102,18 @@ func (c *End) Read(p []byte) (int, error) {
 	if s.rclosed {
 		return 0, ErrClosed
 	}
+	if s.timedOut() {
+		return 0, timeoutError{}
+	}
 	if len(s.buf) == 0 {
 		return 0, io.EOF
 	}
 	n := len(s.buf)
 	if n > len(p) {
 		n = len(p)
+	}
+	if s.timeoutAt >= 0 && s.readOff+n > s.timeoutAt {
+		n = s.timeoutAt - s.readOff
 	}
 	if c.Seg != nil {
 		k := c.Seg(n, len(p))
@@ -245,6 +261,11 @@ func (c *End) CutIncomingAt(n int) {
 		c.rd.wclosed = true
 	}
 }
+
+// TimeoutIncomingAt: a read deadline set by the application expires when n bytes have
+// been read: from then on every Read of this end fails with a timeout error (an expired
+// deadline stays expired), as on a real socket.
+func (c *End) TimeoutIncomingAt(n int) { c.rd.timeoutAt = n }
 
 // FailOutgoingAt makes the write that would pass stream offset n fail.
 func (c *End) FailOutgoingAt(n int) { c.wr.failAt = n }
